@@ -7,7 +7,9 @@
 EXTENDS MxjMapGen, MxjPath, Json
 CONSTANTS SearchKeys, CondKeys, MaxConds, PathNames, MaxPath, DoEmit
 
-CondVals == {[kind |-> "s", v |-> "x"], [kind |-> "star", v |-> "*"], [kind |-> "b", v |-> "true"], [kind |-> "f", v |-> "0.1"]}       \* (0.1: not exact in single precision)
+CondVals == {[kind |-> "s", v |-> "x"], [kind |-> "star", v |-> "*"], [kind |-> "b", v |-> "true"], [kind |-> "f", v |-> "0.1"]}
+            \cup (IF VF("1e-10") \in Scalars THEN {[kind |-> "f", v |-> "1e-10"], [kind |-> "f", v |-> "0"]} ELSE {})       \* (numbers are compared exactly, however close)
+            \cup (IF VS("^") \in Scalars THEN {[kind |-> "s", v |-> "^"]} ELSE {})       \* (the long value of the placeholder alphabets, as a condition too)       \* (0.1: not exact in single precision)
 AllConds == {[k |-> k, neg |-> n, kind |-> cv.kind, v |-> cv.v] : k \in CondKeys, n \in BOOLEAN, cv \in CondVals}
 CondSets == {{}} \cup (IF MaxConds >= 1 THEN {{c} : c \in AllConds} ELSE {})
             \cup (IF MaxConds >= 2 THEN UNION {{{c, d} : d \in {e \in AllConds : <<e.neg, e.k>> # <<c.neg, c.k>>}} : c \in AllConds} ELSE {})
@@ -36,4 +38,9 @@ cScalarsSmall == {VS("x"), VB("true"), VF("0.1")}
 cScalarsNil == {VS("x"), VS("X"), VNil}        \* a member that is present with a null value is PRESENT (wildcard and negated conditions)
 cConts == {EmptyMap, EmptyList}
 cScalars1 == {VS("x")}
+\* placeholder alphabets (check.py SUBST): "~" becomes a 36-byte key that begins with a two-byte character, "^" a 4.2 KiB value
+cScalarsLong == {VS("x"), VS("^"), VB("true")}
+\* numbers of very small magnitude, closer to each other and to zero than any tolerance one might think of
+cScalarsTiny == {VF("1e-10"), VF("3e-10"), VF("0"), VF("-2.5e-12")}
+
 =============================================================================
